@@ -69,7 +69,8 @@ theorem win_reparse_front {st : PState} (hr : WFront st) (hpf : C16.pfxStart st.
         rw [body_cons_seg r hnj, segComp_of_not_junk hnj]
 
 theorem iterAfter_comps_w : ∀ (ys : List Comp) (s s' : PState), WFront s →
-    iterAfter .windows s ys = some s' → WFront s' ∧ ∃ xs, xs.length = ys.length ∧ s.comps = xs ++ s'.comps := by
+    iterAfter .windows s ys = some s' → WFront s' ∧
+      ∃ xs, xs.map (Comp.bytes .windows) = ys.map (Comp.bytes .windows) ∧ s.comps = xs ++ s'.comps := by
   intro ys
   induction ys with
   | nil =>
@@ -86,8 +87,9 @@ theorem iterAfter_comps_w : ∀ (ys : List Comp) (s s' : PState), WFront s →
       obtain ⟨x, s1⟩ := r
       simp only [hf] at h
       split at h
-      · obtain ⟨hr', xs, hlen, hxs⟩ := ih s1 s' (WFront_front hf hr) h
-        refine ⟨hr', x :: xs, by simp [hlen], ?_⟩
+      · rename_i hxy
+        obtain ⟨hr', xs, hlen, hxs⟩ := ih s1 s' (WFront_front hf hr) h
+        refine ⟨hr', x :: xs, by simp [hlen, hxy], ?_⟩
         rw [front_comps hf, hxs]; rfl
       · cases h
 
@@ -102,7 +104,8 @@ theorem win_strip_comps_pf (p q r : Bytes) (hp : C16.pfxStart p = false) (hq : C
   | none => simp [hia] at h
   | some s' =>
     simp only [hia, Option.map_some, Option.some.injEq] at h
-    obtain ⟨hr', xs, hlen, hxs⟩ := iterAfter_comps_w _ _ _ (WFront_new p hp) hia
+    obtain ⟨hr', xs, hmap, hxs⟩ := iterAfter_comps_w _ _ _ (WFront_new p hp) hia
+    have hlen : xs.length = (comps .windows q).length := by simpa using congrArg List.length hmap
     have hre := win_reparse_front hr' (by rw [h]; exact hr)
     rw [h] at hre
     obtain ⟨t, ht⟩ := hstarts
@@ -196,9 +199,298 @@ theorem win_join_strip_pf (a b : Bytes) (ha : C16.pfxStart a = false) (hane : a 
     rw [hj] at this
     exact (List.append_cancel_left this).symm
 
+/-! ### paths with a complete, non-verbatim prefix -/
+
+/-- With a complete non-verbatim prefix on the path: when `strip_prefix` succeeds with a non-empty
+base and the remainder does not start like a prefix, the path's components are a run whose texts
+are the base's component texts, followed by the remainder's components. -/
+theorem win_strip_split_prefixed (p q r rest : Bytes) (pp : PrefixComp)
+    (hpp : parsePrefixComp p = some (pp, rest)) (hc : Win.Complete pp.kind)
+    (hnv : isVerbatimKind pp.kind = false)
+    (h : stripPrefix .windows p q = some r) (hqne : comps .windows q ≠ []) (hr : C16.pfxStart r = false) :
+    ∃ xs, comps .windows p = xs ++ comps .windows r ∧
+      xs.map (Comp.bytes .windows) = (comps .windows q).map (Comp.bytes .windows) := by
+  have hs := Win.stable_of_complete hpp hc
+  have hok := Win.restOK_of_complete hpp hc
+  have hn := Win.normOf_nonverbatim hpp hc hnv
+  have ha := parsePrefixComp_raw hpp
+  unfold stripPrefix at h
+  subst ha
+  rw [Win.new_of_stable hs rest hok, hn] at h
+  rw [C03.comps_new_closed .windows (pp.raw ++ rest), Win.new_of_stable hs rest hok, hn]
+  simp only [Bool.not_true] at h ⊢
+  cases hcq : comps .windows q with
+  | nil => exact absurd hcq hqne
+  | cons y ys =>
+    rw [hcq] at h
+    simp only [iterAfter, PState.nextFront] at h
+    split at h
+    · rename_i hxy
+      cases hia : iterAfter .windows
+          { pre := none, toks := toks (wsep true) rest, atBeg := true, k := false } ys with
+      | none => simp [hia] at h
+      | some s' =>
+        simp only [hia, Option.map_some, Option.some.injEq] at h
+        have hw0 : WFront { pre := none, toks := toks (wsep true) rest, atBeg := true, k := false } :=
+          ⟨rfl, rfl, WFToks_toks _ rest, Or.inl rfl⟩
+        obtain ⟨hr', xs, hmap, hxs⟩ := iterAfter_comps_w _ _ _ hw0 hia
+        have hre := win_reparse_front hr' (by rw [h]; exact hr)
+        rw [h] at hre
+        refine ⟨.pfx pp :: xs, ?_, by simp [hmap, hxy]⟩
+        rw [hre]
+        rw [comps_closed _ hw0.2.2.2] at hxs
+        simp only [List.nil_append] at hxs
+        simp only [List.cons_append, List.cons.injEq, true_and]
+        exact hxs
+    · cases h
+
+theorem canonW_compsT (b : Bytes) : ∀ c ∈ compsT false true (toks (wsep true) b), C10b.canonW c := by
+  have hw := WFToks_toks (wsep true) b
+  cases hts : toks (wsep true) b with
+  | nil => intro c h; simp [compsT] at h
+  | cons t r =>
+    rw [hts] at hw
+    rw [compsT_true_cons]
+    intro c h
+    rcases List.mem_cons.mp h with h | h
+    · subst h
+      cases t with
+      | sep x => trivial
+      | seg s => exact C10b.canonW_segComp true s (Or.inl rfl) (C10b.seg_ne_bslash hw s (by simp))
+    · exact C10b.canonW_body (WFToks_tail hw) c h
+
+theorem map_eq_of_inj {l1 l2 : List Comp} (f : Comp → Bytes)
+    (hinj : ∀ x ∈ l1, ∀ y ∈ l2, f x = f y → x = y) (h : l1.map f = l2.map f) : l1 = l2 := by
+  induction l1 generalizing l2 with
+  | nil => cases l2 with
+    | nil => rfl
+    | cons _ _ => simp at h
+  | cons a l1 ih =>
+    cases l2 with
+    | nil => simp at h
+    | cons b l2 =>
+      simp only [List.map_cons, List.cons.injEq] at h
+      have hab := hinj a (by simp) b (by simp) h.1
+      rw [hab, ih (fun x hx y hy => hinj x (by simp [hx]) y (by simp [hy])) h.2]
+
+/-- a complete prefix is determined by its raw text -/
+theorem prefix_eq_of_raw {a b ra rb : Bytes} {pa pb : PrefixComp}
+    (ha : parsePrefixComp a = some (pa, ra)) (hca : Win.Complete pa.kind)
+    (hb : parsePrefixComp b = some (pb, rb)) (hcb : Win.Complete pb.kind)
+    (h : pa.raw = pb.raw) : pa = pb := by
+  have h1 := (Win.stable_of_complete ha hca [] (by unfold Win.RestOK; split <;> trivial)).1
+  have h2 := (Win.stable_of_complete hb hcb [] (by unfold Win.RestOK; split <;> trivial)).1
+  rw [h, h2] at h1
+  simp only [Option.some.injEq, Prod.mk.injEq, and_true] at h1
+  exact h1.symm
+
+theorem comps_head_not_root (r : Bytes) (hr : C16.pfxStart r = false) (hrel : startsWithSep r = false) :
+    ∀ t, comps .windows r ≠ .root :: t := by
+  intro t
+  rw [C16.win_comps_pf r hr]
+  have hrel' := C16b.toks_rel_of_not_startsWithSep r hrel
+  cases hts : toks (wsep true) r with
+  | nil => simp [compsT]
+  | cons t0 ts =>
+    rw [compsT_true_cons]
+    cases t0 with
+    | sep y => exact absurd hts (hrel' y ts)
+    | seg sg =>
+      intro hE
+      simp only [List.cons.injEq] at hE
+      have h1 := hE.1
+      simp only [headComp, segComp] at h1
+      split at h1
+      · cases h1
+      · split at h1 <;> cases h1
+
+/-- **Windows, complete non-verbatim prefixes on both sides: the base joined with the stripped
+remainder equals the path** (remainder not starting like a prefix; a differently spelled prefix
+makes `strip_prefix` fail instead: K2). -/
+theorem win_strip_join_prefixed (p q r restp restq : Bytes) (pp pq : PrefixComp)
+    (hpp : parsePrefixComp p = some (pp, restp)) (hcp : Win.Complete pp.kind) (hnvp : isVerbatimKind pp.kind = false)
+    (hpq : parsePrefixComp q = some (pq, restq)) (hcq : Win.Complete pq.kind) (hnvq : isVerbatimKind pq.kind = false)
+    (h : stripPrefix .windows p q = some r) (hr : C16.pfxStart r = false) :
+    comps .windows p = comps .windows q ++ comps .windows r ∧
+    pathEq .windows (push .windows q r) p = true := by
+  have hsp := Win.stable_of_complete hpp hcp
+  have hokp := Win.restOK_of_complete hpp hcp
+  have hnp := Win.normOf_nonverbatim hpp hcp hnvp
+  have hap := parsePrefixComp_raw hpp
+  have hsq := Win.stable_of_complete hpq hcq
+  have hokq := Win.restOK_of_complete hpq hcq
+  have hnq := Win.normOf_nonverbatim hpq hcq hnvq
+  have haq := parsePrefixComp_raw hpq
+  have hcompq : comps .windows q = .pfx pq :: compsT false true (toks (wsep true) restq) := by
+    rw [← haq, Win.comps_of_stable hsq restq hokq, hnq]; rfl
+  have hcompp : comps .windows p = .pfx pp :: compsT false true (toks (wsep true) restp) := by
+    rw [← hap, Win.comps_of_stable hsp restp hokp, hnp]; rfl
+  obtain ⟨xs, hsplit, hmap⟩ := win_strip_split_prefixed p q r restp pp hpp hcp hnvp h
+    (by rw [hcompq]; simp) hr
+  -- the prefixes coincide
+  rw [hcompq] at hmap
+  cases xs with
+  | nil => simp at hmap
+  | cons x0 xs' =>
+    rw [hcompp] at hsplit
+    simp only [List.cons_append, List.cons.injEq] at hsplit
+    simp only [List.map_cons, List.cons.injEq] at hmap
+    obtain ⟨hx0, htail⟩ := hsplit
+    subst hx0
+    have hpe : pp = pq := prefix_eq_of_raw hpp hcp hpq hcq hmap.1
+    subst hpe
+    -- the tails coincide
+    have hxs : xs' = compsT false true (toks (wsep true) restq) := by
+      refine map_eq_of_inj (Comp.bytes .windows) ?_ hmap.2
+      intro x hx y hy hxy
+      exact C10b.bytes_inj_of_canonW
+        (canonW_compsT restp x (by rw [htail]; simp [hx])) (canonW_compsT restq y hy) hxy
+    subst hxs
+    have hsplit' : comps .windows p = comps .windows q ++ comps .windows r := by
+      rw [hcompp, hcompq, htail]; rfl
+    refine ⟨hsplit', ?_⟩
+    rw [C05.eq_iff_comps]
+    congr 1
+    rw [hsplit']
+    have hpo := Win.prefixOf_of_comp hpq
+    have hcr : comps .windows r = compsT false true (toks (wsep true) r) := C16.win_comps_pf r hr
+    by_cases hre : r = []
+    · subst hre
+      have hnil : comps .windows [] = [] := by rw [C03.comps_new_closed]; decide
+      simp [push, windowsPush, hnil]
+    · have hrne := comps_ne_nil_of_ne_nil r hr hre
+      -- structure of the path's tail
+      have hstruct := C16.compsT_structure (wsep true) restp
+      cases hrs : startsWithSep r with
+      | true =>
+        -- a rooted remainder: the base was the bare prefix
+        have hrule : rule q r = .rooted := by
+          unfold rule baseIsVerbatim
+          simp [hre, C16b.prefixOf_none_of_pf r hr, hpo, hnvq, hrs]
+        have hbytes : push .windows q r = pp.raw ++ r := by
+          rw [show push .windows q r = windowsPush q r from rfl, C08.win_push_bytes q r (by rw [hrule]; decide)]
+          unfold joinBytes rawPrefix
+          rw [hrule, hpo]
+        have hokr : Win.RestOK pp r := by
+          unfold Win.RestOK
+          split
+          · trivial
+          · trivial
+          · cases r with
+            | nil => exact absurd rfl hre
+            | cons x t =>
+              rw [hnp]
+              have : wsep true x = true := by simpa [startsWithSep, anySep] using hrs
+              exact this
+        have hroot : ∃ t, comps .windows r = .root :: t := by
+          cases r with
+          | nil => exact absurd rfl hre
+          | cons x t =>
+            have hx : wsep true x = true := by simpa [startsWithSep, anySep] using hrs
+            rw [hcr]
+            simp only [toks, hx, if_true]
+            rw [compsT_true_cons]
+            exact ⟨_, rfl⟩
+        obtain ⟨t, ht⟩ := hroot
+        have hq0 : compsT false true (toks (wsep true) restq) = [] := by
+          rcases hstruct with h0 | ⟨c, rest', h0, _, hrest'⟩
+          · rw [h0] at htail
+            have := congrArg List.length htail
+            simp only [List.length_nil, List.length_append] at this
+            exact List.eq_nil_of_length_eq_zero (by omega)
+          · rw [h0, ht] at htail
+            cases hq' : compsT false true (toks (wsep true) restq) with
+            | nil => rfl
+            | cons c' q' =>
+              exfalso
+              rw [hq'] at htail
+              simp only [List.cons_append, List.cons.injEq] at htail
+              have : Comp.root ∈ rest' := by rw [htail.2]; simp
+              rcases hrest' _ this with h' | ⟨s, h', _⟩ <;> cases h'
+        rw [hbytes, Win.comps_of_stable hsq r hokr, hnq, hcompq, hq0, hcr]
+        rfl
+      | false =>
+        have hroot' := comps_head_not_root r hr hrs
+        obtain ⟨_, hpush⟩ := Win.win_push_comps_prefixed q r restq pp hpq hcq hnvq hre hr hrs
+        rw [show push .windows q r = windowsPush q r from rfl, hpush]
+        by_cases hrq : restq = []
+        · subst hrq
+          simp only [if_true]
+          have hq0 : compsT false true (toks (wsep true) ([] : Bytes)) = [] := by simp [toks, compsT]
+          rw [hq0, List.nil_append] at htail
+          cases hk : pp.kind with
+          | disk d => simp only []; rw [hcompq, hq0]; rfl
+          | verbatim n => rw [hk] at hnvq; cases hnvq
+          | verbatimUNC a c => rw [hk] at hnvq; cases hnvq
+          | verbatimDisk d => rw [hk] at hnvq; cases hnvq
+          | deviceNS dev =>
+            exfalso
+            -- what follows a device-namespace prefix is empty or starts with a separator
+            have hh : Win.HeadOK (wsep true) restp := by
+              have := hokp; unfold Win.RestOK at this; rw [hk, hnp] at this; exact this
+            cases restp with
+            | nil => rw [show compsT false true (toks (wsep true) ([] : Bytes)) = [] from hq0] at htail
+                     exact hrne htail.symm
+            | cons x t =>
+              have hx : wsep true x = true := hh
+              simp only [toks, hx, if_true] at htail
+              rw [compsT_true_cons] at htail
+              exact hroot' _ htail.symm
+          | unc sv sh =>
+            exfalso
+            have hh : Win.HeadOK (wsep true) restp := by
+              have := hokp; unfold Win.RestOK at this; rw [hk, hnp] at this; exact this
+            cases restp with
+            | nil => rw [show compsT false true (toks (wsep true) ([] : Bytes)) = [] from hq0] at htail
+                     exact hrne htail.symm
+            | cons x t =>
+              have hx : wsep true x = true := hh
+              simp only [toks, hx, if_true] at htail
+              rw [compsT_true_cons] at htail
+              exact hroot' _ htail.symm
+        · simp only [hrq, if_false]
+          have hqne : compsT false true (toks (wsep true) restq) ≠ [] := by
+            have : toks (wsep true) restq ≠ [] := by rw [ne_eq, toks_eq_nil_iff]; exact hrq
+            cases hts : toks (wsep true) restq with
+            | nil => exact absurd hts this
+            | cons t r => rw [compsT_true_cons]; simp
+          have htl : ∀ x ∈ comps .windows r, C16.tailOKs (wsep true) x := by
+            rcases hstruct with h0 | ⟨c, rest', h0, _, hrest'⟩
+            · rw [h0] at htail
+              have := congrArg List.length htail
+              simp only [List.length_nil, List.length_append] at this
+              exact absurd (List.eq_nil_of_length_eq_zero (by omega)) hqne
+            · intro x hx
+              rw [h0] at htail
+              cases hq' : compsT false true (toks (wsep true) restq) with
+              | nil => exact absurd hq' hqne
+              | cons c' q' =>
+                rw [hq'] at htail
+                simp only [List.cons_append, List.cons.injEq] at htail
+                exact hrest' x (by rw [htail.2]; simp [hx])
+          have hdl : dropLeadingCur (comps .windows r) = comps .windows r := by
+            cases hcr' : comps .windows r with
+            | nil => rfl
+            | cons c rest =>
+              have := htl c (by rw [hcr']; simp)
+              cases c with
+              | cur => rcases this with h' | ⟨s, h', _⟩ <;> cases h'
+              | _ => rfl
+          rw [hdl]
+
 /-! ### non-vacuity -/
 
 example : stripPrefix .windows [97, 92, 98, 92, 99] [97, 47] = some [98, 92, 99] := by
   unfold stripPrefix; rw [C03.comps_new_closed]; decide
+
+-- `C:\a\b` stripped of `C:/a` is `b`; `\\s\h\a` stripped of `\\s\h` is `\a` (a rooted remainder)
+example : stripPrefix .windows [67, 58, 92, 97, 92, 98] [67, 58, 47, 97] = some [98] := by
+  unfold stripPrefix; rw [C03.comps_new_closed]; decide
+example : stripPrefix .windows [92, 92, 115, 92, 104, 92, 97] [92, 92, 115, 92, 104] = some [92, 97] := by
+  unfold stripPrefix; rw [C03.comps_new_closed]; decide
+example : parsePrefixComp [92, 92, 115, 92, 104, 92, 97] = some (⟨[92, 92, 115, 92, 104], .unc [115] [104]⟩, [92, 97]) ∧
+    Win.Complete (WPrefix.unc [115] [104]) ∧ isVerbatimKind (WPrefix.unc [115] [104]) = false := by
+  refine ⟨by decide, ?_, by decide⟩
+  simp [Win.Complete]
 
 end TP.C10c
